@@ -18,7 +18,8 @@ THEOREMS = [
     "add_point_he", "add_point_pair_closed", "add_point_nodes", "divide5_he", "divide_faces_preserves_surface",
     "divide_faces_nodes", "cut_volume_caseA", "cut_volume_caseB", "side_partition", "target_halved", "type_preserved",
     "ids_fresh", "ids_fresh_round", "counter_advance", "quat_matrix_orthogonal", "quat_matrix_orthogonal_cols",
-    "quat_maps_normal", "quat_norm_zero_iff", "quat_degenerate", "map_roundtrip", "identity_case_sound",
+    "plane_normal_nonneg", "plane_normal_same_plane", "quat_never_singular", "quat_maps_normal", "rotation_maps_plane", "rotation_sign_independent",
+    "quat_maps_normal_raw", "quat_norm_zero_iff", "quat_degenerate", "map_roundtrip", "identity_case_sound",
     "rank_injOn", "rebase_inv", "failure_leaves_population", "round_survivors", "run_events_as_modelled",
     "stage_order_as_modelled", "face_side_spec", "edge_plane_on_plane", "edge_plane_on_segment", "nonvacuous",
 ]
@@ -64,6 +65,7 @@ class Runner:
         self.bit_identical = 0
         self.compared = 0
         self.devs = []
+        self.minus_z = {}         # what the real divide_cell does with the axis exactly -z / next to -z (corpus c, d): recorded, both outcomes allowed
         self.reset()
 
     def reset(self):
@@ -71,6 +73,7 @@ class Runner:
         self.state = None; self.p = None; self.n = None; self.thr = None; self.fthr = None
         self.nodes_hi = None; self.faces = None; self.scale = 1.0; self.dkind = None; self.lmin = None
         self.iface_pts = None
+        self.akind = None
 
     def count(self, k, n=1):
         self.stats[k] = self.stats.get(k, 0) + n
@@ -245,6 +248,14 @@ class Runner:
         elif op == "mapback":
             if a.startswith("ok"):
                 self.nodes_hi = U.parse_nodes(a[3:])
+                if self.p is not None and self.akind is not None:
+                    # how far from the division plane the interface nodes come back (accuracy of rotation + inverse), per kind of axis
+                    ds = [abs(U.dot(U.sub(q, self.p), self.n)) / (self.scale * max(U.norm(self.n), 1e-300)) for q in self.nodes_hi]
+                    if any(math.isnan(x) or math.isinf(x) for x in ds):
+                        self.count("mapback_not_finite_axis_" + self.akind)
+                    elif ds:
+                        k = "mapback_worst_distance_from_plane_over_size_axis_" + self.akind
+                        self.stats[k] = max(self.stats.get(k, 0.0), max(ds))
         elif op == "daughters":
             self.count("daughters_" + ("ok" if a.startswith("ok") else a.split(" ||")[0].replace(" ", "_")))
             hyp = dict(zip(extra.split()[0::2], extra.split()[1::2])) if extra else {}
@@ -293,6 +304,9 @@ class Runner:
         except Exception as e:
             self.fail("unparseable answer of divide (%s): %s" % (e, a[:100])); return
         self.count("divide_" + ("some" if d["some"] else "none"))
+        if d["axis"][2] < -0.99:
+            exact = d["axis"][0] == 0.0 and d["axis"][1] == 0.0 and d["axis"][2] == -1.0
+            self.count("divide_axis_%s_minus_z_%s" % ("exactly" if exact else "near", "some" if d["some"] else "none"))
         # "a plane through the mother's centroid": the point the code used is the area-weighted centroid of the surface
         P2 = {}
         for ids, tri in d["before"]:
@@ -471,6 +485,7 @@ def h_stage(R, r, tier):
         if c is None:
             return
         p = [unhex(z) for z in c.split()]
+    R.akind = ak
     R.count("stage_plane_%s_axis_%s" % (pk, ak)); R.count("stage_mesh_%s_%d%s" % (kind, level, "_relaxed" if relax else ""))
     R.do("plane %s %s" % (hexv(p), hexv(ax)))
     a = R.do("addpts")
@@ -575,7 +590,7 @@ def h_round(R, r, tier):
     for l in U.mesh_lines(P, T):
         R.do(l)
     K = r.randint(2, 6)
-    ax, ak = U.pick_axis(r, r.choice(["random", "random", "axis", "mz", "nearz"]))
+    ax, ak = U.pick_axis(r, r.choice(["random", "random", "axis", "mz", "nearz", "nearmz"]))
     R.do("axis " + hexv(ax))
     R.do("popclear")
     info = []
@@ -620,7 +635,9 @@ def corpus(R):
         R.do(l)
     R.do("axis " + hexv([1.0, 0.0, 0.0]))
     R.do("divide %s %s" % (fhex(1.0), fhex(1.0)))
-    # (c) division axis exactly -z on a sphere: NaN rotation, must fail cleanly
+    # (c) division axis exactly -z on a centred icosphere: fails cleanly (without the orientation step of
+    # map_points_to_xy_plane because the quaternion is 0; with it because the plane z = 0 passes through nodes of this mesh,
+    # exactly as for +z)
     P, T = U.RC.base_solid("icosa")
     for _ in range(2):
         P, T = U.RC.subdivide(P, T)
@@ -630,7 +647,23 @@ def corpus(R):
         R.do(l)
     R.do("axis " + hexv([0.0, 0.0, -1.0]))
     R.do("divide %s %s" % (fhex(4e-7), fhex(1e-17)))
-    R.count("corpus_cases", 3)
+    # (d) an ellipsoid in general position (no node on the plane) with the axes +z, -z, and next to -z.  With the orientation
+    # step (plane_normal = the orientation with dz >= 0) -z DIVIDES like +z (judged like every division: two closed outward
+    # daughters on opposite sides, volumes adding up).  Without it the quaternion is 0 and divide_cell returns nullopt cleanly:
+    # C09 allows a failed division, so BOTH outcomes pass here; which one happened is recorded (`minus_z_axis_divides`).
+    # That the outcome must not depend on the sign of the axis is C14's subject
+    # (finding C14:division-depends-on-the-sign-of-the-eigenvector).
+    P, T, sc = U.rounded_mesh(Rng(909), level=2, kind="icosa", scale=2.5e-6, noise=0.0, offset=False)
+    for name, ax in (("plus_z_axis_divides", [0.0, 0.0, 1.0]), ("minus_z_axis_divides", [0.0, 0.0, -1.0]),
+                     ("near_minus_z_1e-8_axis_divides", U.unit([6e-9, -8e-9, -1.0])), ("near_minus_z_1e-3_axis_divides", U.unit([6e-4, -8e-4, -1.0]))):
+        R.reset(); R.do("note scale " + fhex(sc))
+        for l in U.mesh_lines(P, T) + ["init"]:
+            R.do(l)
+        R.do("axis " + hexv(ax))
+        R.do("seed 1")
+        a = R.do("divide %s %s" % (fhex(4e-7), fhex(1e-17)))
+        R.minus_z[name] = (a.split()[0] == "some") if a else None
+    R.count("corpus_cases", 4)
 
 
 def run(ctx):
@@ -693,10 +726,12 @@ def run(ctx):
             "check_face_normal_orientation is modelled as the identity on consistently oriented input (flip of all faces when the signed volume is negative); inconsistent input is flagged and compared up to winding"],
         "theorems": proof["axioms"], "proof_failures": proof["failures"], "translator": gen,
         "evaluations": S.n_lines, "distinct_nontrivial": sum(v for k, v in R.stats.items() if k.startswith(("stage_mesh", "divide_level", "round_axis", "polygon_meshes", "kernel_cases", "corpus"))),
-        "rule": "seeded: (kernel) edge-plane / side test on random and exactly-degenerate inputs; (stage) subdivided tetra/octa/icosahedra on noisy ellipsoids, scales 1e-6..1e-4, optionally relaxed by the real refine_mesh, planes through the centroid / through a node / offset / missing the cell, axes random, +-x +-y +-z, near +-z, exactly -z, interface = fan or the real Poisson+Delaunay result; (polygons) divide_faces / add_point_to_face / coarse_triangulation on polygon meshes given directly; (divide) real divide_cell on relaxed icospheres, several l_min; (round) real cell_divider::run on 2..6 cells; corpus of degenerate inputs; distinct = number of generated meshes / populations / kernel cases",
+        "rule": "seeded: (kernel) edge-plane / side test on random and exactly-degenerate inputs; (stage) subdivided tetra/octa/icosahedra on noisy ellipsoids, scales 1e-6..1e-4, optionally relaxed by the real refine_mesh, planes through the centroid / through a node / offset / missing the cell, axes random, +-x +-y +-z, near +z, near -z, exactly -z (stage, divide and round histories), interface = fan or the real Poisson+Delaunay result; (polygons) divide_faces / add_point_to_face / coarse_triangulation on polygon meshes given directly; (divide) real divide_cell on relaxed icospheres, several l_min; (round) real cell_divider::run on 2..6 cells; corpus of degenerate inputs; distinct = number of generated meshes / populations / kernel cases",
         "statistics": R.stats, "model_vs_impl_compared": R.compared, "model_vs_impl_bit_identical": R.bit_identical,
         "model_vs_impl_disagreements": len(R.disagree), "oracle_failures": len(R.failures),
         "volume_deviation_over_tolerance": {"n": len(devs), "max": devs[-1] if devs else None, "median": devs[len(devs) // 2] if devs else None},
+        "minus_z_axis_divides": R.minus_z.get("minus_z_axis_divides"), "corpus_axis_outcomes": R.minus_z,
+        "minus_z_axis": {k: v for k, v in R.stats.items() if "minus_z" in k or k.startswith("mapback_")},
         "repo_objects_rebuilt": rebuilt,
         "samples": [{"first_requests_of_corpus_case": ["cell", "n 3ff0… (octahedron)", "plane (1,0,0) (1,0,0)", "addpts", "divfaces", "coarse", "mapxy", "tri"]}],
     }
